@@ -60,6 +60,16 @@ type Case struct {
 	// tiny last one, "isize" = one member whose ISIZE trailer field is forged
 	// to 1 (an invalid stream: must fail or at least never be delivered).
 	GzipMode string `json:"gzip_mode,omitempty"`
+	// UnknownLen: the HTTP body is sent without a length (in-process
+	// ContentLength -1; HTTP/1.1 chunked or h2 without content-length on
+	// real sockets).
+	UnknownLen bool `json:"unknown_len,omitempty"`
+	// Proxied: the mux reaches the service through RegisterConn (a real
+	// grpc-go back-end on a loopback listener) instead of RegisterService.
+	Proxied bool `json:"proxied,omitempty"`
+	// URLTag: unary HTTP call on /l/echop/{tag}: the body plus a field bound
+	// from the URL path.
+	URLTag string `json:"url_tag,omitempty"`
 	// AcceptGzip: the HTTP request carries Accept-Encoding: gzip (replies may
 	// be compressed by the server; the client inflates them).
 	AcceptGzip bool `json:"accept_gzip,omitempty"`
@@ -142,6 +152,15 @@ func (c *Case) lane() string {
 	}
 	if c.AcceptGzip {
 		s += "/accept-gzip"
+	}
+	if c.UnknownLen {
+		s += "/unknown-length"
+	}
+	if c.URLTag != "" {
+		s += "/url-field"
+	}
+	if c.Proxied {
+		s += "/proxied"
 	}
 	return s
 }
@@ -333,12 +352,18 @@ func decodeReq(codec string, enc []byte) (proto.Message, error) {
 	return decodeInto(newChunk(), codec, enc)
 }
 
-// decodeMsg parses an encoded request message of the case's message type.
+// decodeMsg parses an encoded request message of the case's message type
+// (plus the field bound from the URL, where the route has one).
 func decodeMsg(c *Case, enc []byte) (proto.Message, error) {
 	if c.Msg == "req" {
 		return decodeInto(vschema.NewMsg(vschema.Msg("vf.Req")), c.Codec, enc)
 	}
-	return decodeInto(newChunk(), c.Codec, enc)
+	m, err := decodeInto(newChunk(), c.Codec, enc)
+	if err == nil && c.URLTag != "" {
+		r := m.ProtoReflect()
+		r.Set(r.Descriptor().Fields().ByName("tag"), protoreflect.ValueOfString(c.URLTag))
+	}
+	return m, err
 }
 
 func decodeInto(m proto.Message, codec string, enc []byte) (proto.Message, error) {
